@@ -50,6 +50,17 @@ class Server(object):
             self.bind = "127.0.0.1:%d" % self.port
             self.addr = ("127.0.0.1", self.port)
             self.family = socket.AF_INET
+        elif bind == "tcp-name":
+            # a host name: the configured spelling differs from what getsockname() reports
+            self.port = free_port()
+            self.bind = "localhost:%d" % self.port
+            self.addr = ("127.0.0.1", self.port)
+            self.family = socket.AF_INET
+        elif bind == "tcp6":
+            self.port = free_port()
+            self.bind = "[::1]:%d" % self.port
+            self.addr = ("::1", self.port)
+            self.family = socket.AF_INET6
         else:
             self.sockpath = os.path.join(self.scratch, "g.sock")
             self.bind = "unix:" + self.sockpath
